@@ -21,9 +21,12 @@ LEVEL_TEXT = (
     "parent), every maximal run ends with exactly the synchronous data and the same set of nulled positions, "
     "every final response is well formed (no null at a non-null position, nulled positions hold null in data, data "
     "null only if an error reached the root; every position where an error originated, was raised or was handled "
-    "lies at or below a null in data: async_wf_error_paths), runs terminate (strictly decreasing measure), a serial root "
-    "starts field j only after fields i<j completed and a completed field has no live task left, and every move "
-    "of the trace monitor is a transition of the system (monitor_sound). The implementation is tied "
+    "lies at or below a null in data: async_wf_error_paths), runs terminate (strictly decreasing measure), "
+    "gather_with_cancel is modelled as cancel-the-rest / await them bottom-up / re-raise (states failing, unwinding), "
+    "and a serial root starts field j only after every field i<j completed with nothing running or still unwinding in "
+    "its subtree, except work abandoned without cancellation (mutation_serial_strict); every move of the trace "
+    "monitor, the serial start included, is a transition of the system (monitor_sound, monitor_serial_start_sound). "
+    "The implementation is tied "
     "to the model on explored schedules only: a harness event loop resolves every awaitable (field results, "
     "list items, async-iterator steps, resolve_type / is_type_of results) in all k! orders for small k, "
     "sampled orders up to k=10, same-tick groupings and every sync/awaitable assignment for small k; each "
@@ -43,10 +46,14 @@ LEVEL_NOTE = (
     "actual callback ordering (the model allows every order; the harness explores completion orders of the "
     "awaitables it controls, not the order of call_soon callbacks inside one tick). Field collection, "
     "argument coercion and leaf serialisation are C02/C16's subject and enter here only as the given field "
-    "tree. The model lets a failing node settle at once and abandons its unsettled children (cancellation reaches them "
-    "by later transitions), so 'gather_with_cancel waits until the siblings it cancelled have finished unwinding' - "
-    "which the strict serial clause needs - is not a theorem about Proc: it is checked on the implementation by the "
-    "oracle (start / cancel / end events of every harness resolver coroutine, some with awaited cleanup in finally)."
+    "tree. The model of gather_with_cancel is the documented and repaired algorithm (commit 1574f97: the cancelled "
+    "awaitables are awaited also when the awaiting task is itself cancelled); 'the next root field starts only after "
+    "cancelled siblings have finished unwinding' is a theorem of that model (mutation_serial_strict). That the "
+    "implementation's unwinding really finishes in that order is not observable by the trace monitor (it sees resolver "
+    "invocations, completions and cancel() calls, not the end of a cancelled task); it is checked on the implementation "
+    "by the oracle (start / cancel / end events of every harness resolver coroutine, some with 30-40 awaited cleanup "
+    "steps in finally). Work abandoned without cancellation (settle_in_background) is the separate bg = true path of "
+    "the model and the known finding mutation-overlap-background on the implementation."
 )
 TECHNIQUE = (
     "Lean 4 theorems about a labelled transition system + trace monitor (compiled model) + controlled "
@@ -59,9 +66,11 @@ TRUSTED = [
     "(tools/c03_monitor.type_gates) used only to build the field tree handed to the model; the property oracle "
     "does not use them",
     "the monitor's search strategy (Gql/Async/Monitor.lean: which enabled transition explains an observed event; "
-    "two leniencies: a completion of an awaitable list item the aborted list loop never reached is ignored, a "
-    "cancellation below an already cancelled task is ignored); its individual moves are proved to be transitions "
-    "(monitor_sound)",
+    "failing gathers are only applied when an observed cancellation or the delivery of the response needs them; "
+    "leniencies: a completion of an awaitable list item the aborted list loop never reached is ignored, a completion or "
+    "cancellation at or below an already cancelled task is ignored, tasks still pending at the end of the trace are "
+    "accepted only below a completed position); its individual moves are proved to be transitions (monitor_sound, "
+    "monitor_serial_start_sound)",
 ]
 ASSUMPTIONS = [
     "resolvers are deterministic functions of their position (fixed request); awaitables deliver the same "
@@ -85,8 +94,8 @@ ASSUMPTIONS = [
 EXPLANATION = (
     "Theorems: async_invariant (+done_is_denotation, errors_are_predicted, cancellation_only_below_error), "
     "schedule_independent (+assignment_independent, agrees_with_synchronous), async_wf, async_wf_error_paths, mutation_serial "
-    "(+mutation_start_after_completion, completed_field_is_quiet, mutation_schedule_independent), run_terminates, "
-    "serial_run_terminates, monitor_sound over Proc. "
+    "(+mutation_serial_strict, completed_field_is_quiet, mutation_schedule_independent), run_terminates, "
+    "serial_run_terminates, monitor_sound, monitor_serial_start_sound over Proc. "
     "Correspondence: recorded traces of the implementation under a controlled event loop are accepted by the "
     "Proc monitor and end in the predicted response. Oracle: data and nulled positions equal execute_sync; "
     "response well-formedness; serial mutation roots."
